@@ -452,9 +452,11 @@ def typedcases(draw):
         else:
             hi = 200 if tp == "uint8" else 40
             q = 1 if tp[0] in "iu" else 4
-            base = draw(st.sampled_from([0, 0, 40000, 1000000])) if tp not in ("uint8",) else 0
+            base = draw(st.sampled_from([0, 0, 40000, 1000000, 2 ** 32])) if tp not in ("uint8",) else 0
             if tp == "uint16":
                 base = min(base, 40000)
+            if base == 2 ** 32 and tp not in ("float64", "int64", "uint64"):      # 64 bit identifiers of long scans
+                base = 1000000
             lo = 0 if (tp[0] == "u" or base) else -hi
             v = [base + k / float(q) for k in draw(st.lists(st.integers(lo * q, hi * q), min_size=n, max_size=n))]
         cols.append([tp, v])
